@@ -28,14 +28,14 @@ CBMC_FLAGS = ["--no-malloc-may-fail", "--no-undefined-shift-check", "--no-signed
               "--sat-solver", "cadical"]  # no --slice-formula: the recorded words must stay in the trace
 
 # harness function -> (native replay entry, uses const generics of the harness instance)
-ENTRY = {"step": "replay_step", "step_dijkstra": "replay_step_dijkstra", "step_size": "replay_step_size"}
+ENTRY = {"step": "replay_step", "step_dir": "replay_step", "step_dijkstra": "replay_step_dijkstra", "step_size": "replay_step_size"}
 
 
 def _harness_info(name):
     """reads unwind bound and the instantiated body `fn::<NV, NE>()` of a `stubs!` harness"""
     src = open(os.path.join(kani_runner.crate_dir("loop"), "src", "astar.rs")).read()
     short = name.split("::")[-1]
-    m = re.search(r"stubs!\(\s*%s\s*,\s*(\d+)\s*,\s*(\w+)::<(\d+),\s*(\d+)>\(\)\s*\)" % re.escape(short), src)
+    m = re.search(r"stubs!\(\s*%s\s*,\s*(\d+)\s*,\s*(\w+)::<(\d+),\s*(\d+)>\([^)]*\)\s*\)" % re.escape(short), src)
     if not m:
         return None
     return {"unwind": int(m.group(1)), "fn": m.group(2), "nv": int(m.group(3)), "ne": int(m.group(4))}
